@@ -669,6 +669,17 @@ def check_unitary_record(ctx: Ctx, rule: str, nb_units: bool = True):
                 writers.append((g, s))
     if not any(g.name == "__init__" for g, _ in writers):
         ctx.undecided(rule, None, None, f"UnitaryAlignment.__init__ does not store {F} (not a verdict)", construct="__init__", key="ua-record:init")
+    setter = cls.setters.get("n_tuple")
+    if setter is not None:
+        ctx.functions_analysed.add(setter.qualname)
+        ctx.check(any(g is setter for g, _ in writers), rule, setter, None, "the n_tuple setter replaces the stored tuple",
+                  bad_detail=f"the n_tuple setter does not store into {F}: `ua.n_tuple = t` leaves the previous tuple in place", construct="n_tuple.setter", key="ua-record:setter")
+        D = backing_field(M, "UnitaryAlignment", "disorder", "_disorder")
+        ssn = setter.self_name
+        resets = [s for s in walk_no_nested(setter.node) if isinstance(s, ast.Assign) and norm(s.targets[0]) == f"{ssn}.{D}" and isinstance(s.value, ast.Constant) and s.value.value is None]
+        ctx.check(bool(resets), rule, setter, resets[0] if resets else None, "replacing the tuple forgets the disorder cached for the previous one",
+                  bad_detail=f"the n_tuple setter keeps the cached {D} of the previous tuple: the unitary alignment then reports a disorder that is not the one of its units",
+                  construct="n_tuple.setter cache", key="ua-record:setter-cache")
     for g, s in writers:
         ctx.functions_analysed.add(g.qualname)
         params = set(g.params[1:])
@@ -734,6 +745,100 @@ def check_unitary_record(ctx: Ctx, rule: str, nb_units: bool = True):
                   bad_detail=f"UnitaryAlignment.nb_units counts the elements of `{ci[0]}` with `{ci[1]}` instead of the slots of the n-tuple whose unit is not None", key="accessor")
 
 
+_TEXT_TRANSFORMS = ("strip", "lstrip", "rstrip", "lower", "upper", "casefold", "title", "capitalize", "replace", "split", "rsplit", "partition", "translate",
+                    "removeprefix", "removesuffix", "swapcase", "expandtabs", "zfill", "center", "ljust", "rjust")
+
+
+def check_annotator_key(ctx: Ctx, rule: str):
+    """`add` / `add_annotator` file their work under the annotator they are given.  A text transformation of the name files it under another
+    annotator than the one the set-per-annotator model - and every caller that looks the name up afterwards (the corpus shuffling tool, a
+    reader followed by `continuum[name]`) - expects (recognised shape, wrong slot).  Other rebindings are the parameter guard's business."""
+    n = 0
+    for qn_ in ("Continuum.add", "Continuum.add_annotator"):
+        g_ = ctx.fn(qn_, rule)
+        pa_ = g_.params[1] if len(g_.params) > 1 else None
+        bad = False
+        for st_ in walk_no_nested(g_.node):
+            if isinstance(st_, ast.Assign) and len(st_.targets) == 1 and isinstance(st_.targets[0], ast.Name) and st_.targets[0].id == pa_:
+                tr_ = [c.func.attr for c in ast.walk(st_.value) if isinstance(c, ast.Call) and isinstance(c.func, ast.Attribute) and c.func.attr in _TEXT_TRANSFORMS
+                       and any(isinstance(x, ast.Name) and x.id == pa_ for x in ast.walk(c.func.value))]
+                if tr_:
+                    bad = True
+                    ctx.bad(rule, g_, st_, f"{qn_} files its work under `{norm(st_.value)}`, not under the annotator it was given: names that differ only by what "
+                            f".{tr_[0]}() removes or changes collapse into one annotator and the name passed in is not among the continuum's annotators", key=f"key-transformed:{qn_}")
+        if not bad:
+            n += 1
+            ctx.ok(rule, g_, None, f"{qn_} does not transform the annotator name it is given", construct="annotator key", key=f"key-verbatim:{qn_}")
+    return n
+
+
+def _init_precedes_window_measure(ctx: Ctx) -> bool:
+    """in Continuum.compute_gamma, sampler.init_sampling(...) is evaluated before self.measure_best_window_size(...) (structural order)"""
+    g = ctx.model.functions.get("Continuum.compute_gamma")
+    if g is None:
+        return False
+    order = source_order(g.node)
+    ini = [c for c in walk_no_nested(g.node) if isinstance(c, ast.Call) and isinstance(c.func, ast.Attribute) and c.func.attr == "init_sampling"]
+    mea = [c for c in walk_no_nested(g.node) if isinstance(c, ast.Call) and isinstance(c.func, ast.Attribute) and c.func.attr == "measure_best_window_size"]
+    return bool(ini) and bool(mea) and max(order[id(c)] for c in ini) < min(order[id(c)] for c in mea)
+
+
+def check_alignment_record(ctx: Ctx, rule: str):
+    """`Alignment(unitary_alignments, continuum, check_validity, disorder)` is how every alignment function hands back its result: the
+    constructor keeps every unitary alignment it is given (a filter drops some: recognised shape, wrong slot), the continuum and the
+    disorder it is given; SoftAlignment forwards its four arguments to it, each to its own parameter."""
+    M = ctx.model
+    if ("alignment-record", rule) in ctx.notes.setdefault("records_checked", set()):
+        return
+    ctx.notes["records_checked"].add(("alignment-record", rule))
+    f = M.functions.get("Alignment.__init__")
+    if f is None:
+        ctx.undecided(rule, None, None, "Alignment.__init__ not found", construct="Alignment.__init__", key="al-record")
+        return
+    ctx.functions_analysed.add(f.qualname)
+    sn = f.self_name
+    ps = f.params
+    if len(ps) < 5:
+        ctx.undecided(rule, f, None, "Alignment.__init__(self, unitary_alignments, continuum, check_validity, disorder) expected", key="al-record")
+        return
+    D = backing_field(M, "Alignment", "disorder", "_disorder")
+    for fld, par in (("unitary_alignments", ps[1]), ("continuum", ps[2]), (D, ps[4])):
+        st = [s for s in walk_no_nested(f.node) if isinstance(s, ast.Assign) and norm(s.targets[0]) == f"{sn}.{fld}"]
+        key = f"al-record:{fld}"
+        if len(st) != 1:
+            ctx.undecided(rule, f, None, f"Alignment.__init__ stores {fld} {len(st)} times (not a verdict)", key=key, construct=fld)
+            continue
+        v = expand_locals(f.node, st[0].value)
+        x = v
+        while isinstance(x, ast.Call) and dotted(x.func) in ("list", "tuple") and len(x.args) == 1 and not x.keywords:
+            x = x.args[0]
+        if isinstance(x, ast.Name) and x.id == par:
+            ctx.ok(rule, f, st[0], f"the alignment keeps the {fld} it is given", key=key)
+            continue
+        filtering = (isinstance(x, (ast.ListComp, ast.GeneratorExp, ast.SetComp)) and any(g.ifs for g in x.generators)) or \
+            (isinstance(x, ast.Call) and dotted(x.func) == "filter")
+        if fld == "unitary_alignments" and filtering and any(isinstance(n, ast.Name) and n.id == par for n in ast.walk(x)):
+            ctx.bad(rule, f, st[0], f"Alignment.__init__ keeps only some of the unitary alignments it is given (`{norm(v)}`): the units of the dropped ones are in no "
+                    f"unitary alignment of the result", key=key)
+        else:
+            ctx.undecided(rule, f, st[0], f"Alignment.__init__ stores `{norm(v)}` as {fld}, not the argument itself (not a verdict)", key=key)
+    g = M.functions.get("SoftAlignment.__init__")
+    if g is not None:
+        ctx.functions_analysed.add(g.qualname)
+        sup = [c for c in walk_no_nested(g.node) if isinstance(c, ast.Call) and norm(c.func) == "super().__init__"]
+        if len(sup) != 1:
+            ctx.undecided(rule, g, None, "SoftAlignment.__init__ does not call super().__init__ exactly once (not a verdict)", key="al-record:soft", construct="super().__init__")
+        else:
+            b = bound_args(sup[0], f)
+            if b is None:
+                ctx.undecided(rule, g, sup[0], "arguments of super().__init__ not bindable (not a verdict)", key="al-record:soft")
+            else:
+                gp = g.params[1:5]
+                wrong = [(p, norm(a)) for p, a in b.items() if p in ps[1:5] and isinstance(a, ast.Name) and a.id in gp and gp.index(a.id) != ps[1:5].index(p)]
+                ctx.check(not wrong, rule, g, sup[0], "SoftAlignment forwards each constructor argument to the parameter of the same role",
+                          bad_detail=f"SoftAlignment hands {wrong} to the wrong parameter of Alignment.__init__", key="al-record:soft")
+
+
 def check_sampler_init(ctx: Ctx, rule: str):
     """`sampler.init_sampling(continuum, ground_truth_annotators)` is a dispatched call: every implementation a sampler object can run must,
     on every path that returns normally, record the reference and the ground-truth annotators *of this call* - the base class by storing both
@@ -760,6 +865,14 @@ def check_sampler_init(ctx: Ctx, rule: str):
                                    norm(v) in (f"{sn}._reference_continuum.annotators", f"{p_ref}.annotators"))):
                 st = [s for s in walk_no_nested(f.node) if isinstance(s, ast.Assign) and norm(s.targets[0]) == f"{sn}.{fld}"]
                 good = [s for s in st if ok_value(s.value)]
+                snap = [s for s in st if s not in good and fld == "_reference_continuum" and
+                        norm(s.value) in (f"{p_ref}.copy()", f"deepcopy({p_ref})", f"copy.deepcopy({p_ref})", f"copy.copy({p_ref})", f"{p_ref}.copy_flush()", f"{p_ref} + {p_ref}")]
+                if snap and _init_precedes_window_measure(ctx):
+                    ctx.bad(rule, f, snap[0], f"{f.qualname} keeps a snapshot (`{norm(snap[0].value)}`) of the reference instead of the continuum itself, and compute_gamma "
+                            f"initialises the sampler *before* it measures and records this call's window size on the continuum: every chance sample (copy_flush of the "
+                            f"snapshot) carries the window size of an earlier call, so chance alignments are not the kind of alignment the observed one is", key=f"sampler-init:{fld}")
+                    groups = None
+                    break
                 if len(good) != len(st):
                     ctx.undecided(rule, f, next(s for s in st if s not in good), f"{f.qualname}: a store into {fld} whose value is not derived from this call's argument (not a verdict)",
                                   key=f"sampler-init:{fld}")
@@ -768,6 +881,21 @@ def check_sampler_init(ctx: Ctx, rule: str):
                 groups.append((fld, [cfg.node_of(s) for s in st]))
             if groups is None:
                 continue
+            # the store that runs when ground-truth annotators ARE given must be made from them
+            def given(t):
+                if isinstance(t, ast.Compare) and len(t.ops) == 1 and norm(t.left) == p_gt and isinstance(t.comparators[0], ast.Constant) and t.comparators[0].value is None:
+                    return True if isinstance(t.ops[0], ast.IsNot) else (False if isinstance(t.ops[0], ast.Is) else None)
+                if norm(t) == p_gt:
+                    return True
+                return None
+            for s in [x for x in walk_no_nested(f.node) if isinstance(x, ast.Assign) and norm(x.targets[0]) == f"{sn}._ground_truth_annotators"]:
+                ks = [(given(t) == pol) for t, pol in conditions_at(f.node, s) if given(t) is not None]
+                if ks and not all(ks):
+                    continue                      # runs only when no ground truth was given
+                uses = p_gt in {n.id for n in ast.walk(s.value) if isinstance(n, ast.Name)}
+                ctx.check(uses, rule, f, s, "the ground-truth annotators that were given are the ones recorded",
+                          bad_detail=f"when ground-truth annotators are given, {f.qualname} records `{norm(s.value)}` instead: chance continua are drawn from annotators the caller excluded",
+                          key="sampler-init:given")
             for fld, nodes in groups:
                 ctx.check(bool(nodes) and cfg.must_pass(EXIT, [n for n in nodes if n is not None]), rule, f, None,
                           f"every normal return of {f.qualname} has stored {fld} from this call's arguments",
